@@ -33,7 +33,12 @@ package signature
 //@ func (*SignRequest).Context(r)
 //@   requires r != nil
 //@   ensures [nonnil] result != nil
+//@   ensures [given] r.ctx != nil ==> result == r.ctx
 //@   pure
+// (the documented panic on a nil context is the caller's precondition)
+//@ func (*SignRequest).WithContext(r, ctx)
+//@   requires r != nil && ctx != nil
+//@   ensures [copy] result != nil && fresh(result) && result.ctx == ctx && result.Payload == r.Payload && result.Signer == r.Signer && result.SigningTime == r.SigningTime && result.Expiry == r.Expiry && result.SigningScheme == r.SigningScheme && result.SigningAgent == r.SigningAgent && result.Timestamper == r.Timestamper && result.TSARootCAs == r.TSARootCAs && result.ExtendedSignedAttributes == r.ExtendedSignedAttributes
 
 // ---- algorithm.go
 //@ func ExtractKeySpec(signingCert)
